@@ -355,6 +355,11 @@ func (syncService *SyncService[H]) setFirstAndStart(ctx context.Context, peerIDs
 				if trusted, err = syncService.ex.GetByHeight(ctx, syncService.genesis.InitialHeight); err != nil {
 					// Full/light nodes have to wait for aggregator to publish the genesis block
 					// proposing aggregator can init the store and start the syncer when the first block is published
+					if syncService.conf.Node.Aggregator {
+						// ... so a peer that happens to be connected and cannot serve the item must not keep it from starting
+						syncService.logger.Info("no peer serves the genesis item yet; the store is initialized with the first block published", "error", err)
+						return nil
+					}
 					return fmt.Errorf("failed to fetch the genesis: %w", err)
 				}
 				if err = syncService.verifyAgainstGenesis(trusted); err == nil {
